@@ -201,4 +201,31 @@ theorem run_prefix_k (f rbp bb : Nat) (t h : Tok) (ts' : List Tok) (v nxn : Node
   simp only [pure]
   exact hk
 
+/-- identifier terminal, continuation form -/
+theorem run_identifier_k (f rbp bb : Nat) (t nx : Tok) (rest : List Tok) (res : Res Node) (hn : Real nx)
+    (hid : (nodeOf bb t).nud = .identifier) (htok : (nodeOf bb t).tok = some t)
+    (hnt : (nodeOf bb nx).tok = some nx)
+    (h1 : nx.id ≠ T_DOT) (h2 : nx.id ≠ T_LPAREN) (h3 : nx.id ≠ T_LBRACK)
+    (hk : loopLed (f+2) rbp (nodeOf bb t) (st bb (nodeOf bb nx) rest) = res) :
+    run (f+3) rbp (st bb (nodeOf bb t) (nx :: rest)) = res := by
+  have e : ((nodeOf bb t).addMeta []).nud = Nud.identifier := by rw [addMeta_nil]; exact hid
+  have hne : ¬ (((nodeOf bb t).addMeta []).nud = Nud.none) := by rw [e]; simp
+  rw [run, bind_def]
+  simp only [getP]
+  rw [bind_def, advance_real bb _ nx rest hn]
+  simp only [if_neg hne]
+  rw [bind_def, nudOf, e]
+  simp only [addMeta_nil]
+  rw [parseMore, bind_def, curId_st bb _ nx rest hnt]
+  simp only [h1, h2, if_false]
+  rw [bind_def]
+  have hc : cur (st bb (nodeOf bb nx) rest) = .ok (nodeOf bb nx) (st bb (nodeOf bb nx) rest) := rfl
+  rw [hc]
+  simp only
+  rw [bind_def, tokOf_some _ nx _ hnt]
+  simp only
+  rw [bind_def, tokOf_some _ t _ htok]
+  simp only [h3, false_and, if_false, pure_def]
+  exact hk
+
 end Ecal.C08.TP
